@@ -297,6 +297,18 @@ def nb_pair(gen, cls=None, minor=None):
     return cls, a, b, rec
 
 
+def shuffle_keys(x, r):
+    """the same JSON document with another member order in every object (JSON objects are unordered; notebooks
+    written by other tools order their keys differently)"""
+    if isinstance(x, dict):
+        keys = list(x)
+        r.shuffle(keys)
+        return {k: shuffle_keys(x[k], r) for k in keys}
+    if isinstance(x, list):
+        return [shuffle_keys(v, r) for v in x]
+    return x
+
+
 def valid_pair(gen, cls=None, minor=None, tries=5):
     """nb_pair whose two notebooks pass the pure-jsonschema self-check; returns
     (cls, A, B, rec, waste) where waste counts discarded invalid generations."""
@@ -304,6 +316,9 @@ def valid_pair(gen, cls=None, minor=None, tries=5):
     for _ in range(tries):
         cls2, a, b, rec = nb_pair(gen, cls, minor)
         if not validate_nb(a) and not validate_nb(b):
+            if gen.rng.random() < 0.2:
+                a, b = shuffle_keys(a, gen.rng), shuffle_keys(b, gen.rng)
+                rec = list(rec) + ["member-order-shuffled"]
             return cls2, a, b, rec, waste
         waste += 1
     return None, None, None, None, waste
@@ -816,6 +831,9 @@ def valid_triple(gen, cls=None, minor=None, plain_eol=False, tries=5):
     for _ in range(tries):
         cls2, b, l, rm, info = merge_triple(gen, cls, minor, plain_eol)
         if not validate_nb(b) and not validate_nb(l) and not validate_nb(rm):
+            if gen.rng.random() < 0.2:
+                b, l, rm = shuffle_keys(b, gen.rng), shuffle_keys(l, gen.rng), shuffle_keys(rm, gen.rng)
+                info = dict(info, member_order="shuffled")
             return cls2, b, l, rm, info, waste
         waste += 1
     return None, None, None, None, None, waste
